@@ -384,6 +384,30 @@ fn run_case(seed: u64, idx: usize, out: &mut Out) {
                     return;
                 }
             }
+            // Second chance for the same known-finding class, by pattern (the phantom search above is
+            // capped): a read that BEGAN after a delete had completed returns a version written before
+            // that delete was called, while an insert of any key (whose emergency drain does the repair)
+            // overlaps the window [delete call, read return]. If the history without such reads is
+            // linearizable, the resurrection is the only anomaly.
+            if cfg.hot_hard <= 2 {
+                let inserts: Vec<&Ev> = log.iter().filter(|e| matches!(e.op, OpK::Write(_)) && e.thread != 99).collect();
+                let explained = |r: &Ev| -> bool {
+                    let OpK::Read(Some((w, _))) = r.op else { return false };
+                    let Some(wr) = evs.iter().find(|e| matches!(e.op, OpK::Write(x) if x == w)) else { return false };
+                    evs.iter().any(|d| {
+                        matches!(d.op, OpK::Delete) && d.ok && d.ret < r.call && wr.ret < d.call && inserts.iter().any(|i| i.call < r.ret && i.ret > d.call)
+                    })
+                };
+                let rest: Vec<Ev> = evs.iter().filter(|e| !explained(e)).cloned().collect();
+                if rest.len() < evs.len() && linearizable(&rest) {
+                    out.violation(
+                        "not-linearizable|explained-by-emergency-drain-repair-resurrection",
+                        format!("case {}: the history of key {} is linearizable except for read(s) of a version that a completed delete had removed, overlapped by an insert (emergency drain repair): {:?}", idx, k, evs.iter().map(|e| e.to_json().to_string()).collect::<Vec<_>>()),
+                        json!({"schedule": desc, "history": log.iter().map(|e| e.to_json()).collect::<Vec<_>>()}),
+                    );
+                    return;
+                }
+            }
             let flavours: std::collections::BTreeSet<&str> = evs.iter().filter(|e| matches!(e.op, OpK::Read(_))).map(|e| e.flavour).collect();
             out.violation(
                 format!("not-linearizable|reads={}", flavours.into_iter().collect::<Vec<_>>().join(",")),
